@@ -489,7 +489,9 @@ pub fn apply_corruption(bytes: &mut Vec<u8>, kv: &Kv, key: &[u8]) -> Option<Stri
         "byte" => {
             if !bytes.is_empty() {
                 let p = pos % bytes.len();
-                bytes[p] = val;
+                // always a change (if the byte already has that value, its complement): whether the fault bites
+                // must not depend on id-dependent bytes (transaction id, MAC, CRC)
+                bytes[p] = if bytes[p] == val { !val } else { val };
             }
         }
         "trunc" => {
